@@ -5,6 +5,7 @@ import (
 	"fmt"
 	"io"
 	"io/fs"
+	"path"
 	"regexp"
 	"sort"
 	"strings"
@@ -39,6 +40,10 @@ func (t *traceFS) Open(name string) (fs.File, error) {
 	}
 	st, _ := f.Stat()
 	if st != nil && st.IsDir() {
+		if t.fault[name] == 3 { // an unreadable directory
+			f.Close()
+			return nil, &fs.PathError{Op: "open", Path: name, Err: errFS}
+		}
 		return f, nil
 	}
 	if t.fault[name] == 1 {
@@ -285,6 +290,54 @@ func genFsCase(r *Rng, out *outFiles) {
 	}
 	if len(tfs.fault) > 0 {
 		out.count("fault")
+	}
+	// errors of the WALK itself (not of a file): a configured sub-directory that does not exist, a directory that cannot
+	// be read.  They must be returned, never swallowed (a second manager on the same tree; outside the model)
+	if c19 == "" && r.Chance(25) {
+		out.count("walk-error-probe")
+		probe := func(what string, sub2 string, faultDir string, wantIs error) {
+			t2 := &traceFS{inner: mapfs, fault: map[string]int{}}
+			m2 := html.NewTplManager()
+			if sub2 != "" {
+				m2.SetSubFS(sub2)
+			}
+			if faultDir != "" {
+				t2.fault[faultDir] = 3
+			}
+			var e2 error
+			func() {
+				defer func() {
+					if x := recover(); x != nil {
+						e2 = fmt.Errorf("PANIC %v", x)
+					}
+				}()
+				e2 = m2.Parse(t2, func(string) bool { return false }) // no file matches: the only possible error is the walk's
+			}()
+			switch {
+			case e2 == nil:
+				c19 = what + ": Parse returned nil (the error of the walk was swallowed)"
+			case strings.HasPrefix(e2.Error(), "PANIC"):
+				c19 = what + ": " + e2.Error()
+			case !errors.Is(e2, wantIs):
+				c19 = fmt.Sprintf("%s: the returned error does not wrap the file system's error: %v", what, e2)
+			}
+		}
+		probe("sub-directory 'nosuchdir' does not exist", "nosuchdir", "", fs.ErrNotExist)
+		var dirs []string
+		seen := map[string]bool{}
+		for _, full := range names {
+			for d := path.Dir(full); d != "."; d = path.Dir(d) {
+				if !seen[d] {
+					seen[d] = true
+					dirs = append(dirs, d)
+				}
+			}
+		}
+		sort.Strings(dirs)
+		if len(dirs) > 0 && c19 == "" {
+			d := dirs[r.Intn(len(dirs))]
+			probe("directory "+d+" cannot be read", "", d, errFS)
+		}
 	}
 	out.put(fmt.Sprintf("fs %s %s", encStr(sub), strings.Join(fe, "|")), line, verdict("C19", c19), verdict("C08", panicOnly(strings.TrimPrefix(line, "ERR "))))
 }
